@@ -1340,7 +1340,9 @@ def from_str(x, prec, rnd=round_fast):
 
     # XXX: appropriate cutoffs
     # note no factors of 5
-    if abs(exp) > 400:
+    # The exact conversion is used whenever the exponent or the magnitude
+    # of the number is moderate (e.g. a literal with many fractional digits)
+    if abs(exp) > 400 and abs(exp + int(bitcount(abs(man))*0.30103)) > 400:
         # Keep the mantissa exact and round the power of ten in the direction
         # that keeps a directed result on the right side of the exact value
         # (the direction flips for a negative mantissa)
